@@ -51,6 +51,13 @@ typedef struct {
     long canary_where;
 } ctrans;
 
+/* an object under test: handle + harness-side bookkeeping */
+typedef struct { vh_handle H; int live; int id; int kind; int cap; } vh_obj;
+/* optional monitors called around every library call made by the interpreters */
+extern void (*vh_pre_call_hook)(vh_obj *ob, int is_cleanup_of_object, int op_index);
+extern void (*vh_post_call_hook)(vh_obj *ob, int op_index);
+void ctrans_reset(ctrans *t);
+
 /* generator flags */
 #define G_LIFECYCLE 1    /* cleanup, re-init, use after cleanup, use before init */
 #define G_INVALID 2      /* inject invalid calls */
@@ -65,6 +72,8 @@ typedef struct {
 void chist_gen(chist *h, const vh_cipher *c, vh_rng *r, unsigned gflags);
 /* run on the real library with the current back-end cap */
 void chist_run(const chist *h, ctrans *t, const char *crash_prefix);
+/* execute op i of h on object ob (interleavable) */
+void chist_exec(const chist *h, int i, vh_obj *ob, ctrans *t, const char *crash_prefix);
 /* model: fills expected outputs for judged ops into t (ret = expect) */
 void chist_model(const chist *h, ctrans *t);
 /* JSON description (truncated data) */
@@ -87,6 +96,7 @@ typedef struct {
 } phist;
 void phist_gen(phist *h, const vh_cipher *c, vh_rng *r, unsigned gflags);
 void phist_run(const phist *h, ctrans *t, const char *crash_prefix);
+void phist_exec(const phist *h, int i, vh_obj *ob, ctrans *t, const char *crash_prefix);
 void phist_model(const phist *h, ctrans *t);   /* expected via reference models */
 void phist_json(const phist *h, vh_sb *s);
 uint64_t phist_hash(const phist *h);
